@@ -123,7 +123,10 @@ impl ClientConnection {
                     if line.is_empty() {
                         break;
                     };
-                    headers.push(match FromStr::from_str(line.as_str().trim()) {
+                    // only trailing whitespace may be removed: a line that *begins* with
+                    // whitespace (obsolete line folding) must reach the header parser,
+                    // which rejects whitespace in the field name
+                    headers.push(match FromStr::from_str(line.as_str().trim_end()) {
                         // TODO: remove this conversion
                         Ok(h) => h,
                         _ => return Err(ReadError::WrongHeader(version)),
